@@ -59,10 +59,33 @@ EXPLANATION = (
     "sees.  (This rule found defect D44: when the analysed module itself "
     "defines a name `Any`/`Never` the printer writes `typing.Any`, which the "
     "Name-only filter missed, so merge-pyi inserted `-> Any`; repaired by "
-    "87d75f5, after which the predicate recognises the qualified form.)  Not "
+    "87d75f5, after which the predicate recognises the qualified form.)  "
+    "Filter classes are resolved through base classes defined in "
+    "merge_pyi.py (callbacks may be inherited).  R20.20 "
+    "(rules/c20_traversal.py): RemoveAnyNeverTransformer and its "
+    "module-local bases have no `visit_X` override that can return a false "
+    "value for a node class X whose subtree can hold a FunctionDef/AnnAssign "
+    "that libcst's stub reader sees (containment closure over the libcst "
+    "field declarations, cut below the node classes whose TypeCollector "
+    "visit_X always returns False), and do not override on_visit: a pruned "
+    "subtree keeps its bare Any/Never.  R20.21 (rules/c20_bases.py, "
+    "two-site agreement printer <-> libcst): every element of the sequence "
+    "PrintVisitor.VisitClass joins into the `class NAME(...)` header is "
+    "derived (element provenance over reaching definitions, list mutations "
+    "included) from node.bases or node.keywords; a synthesised element that "
+    "can spell `Generic` is a violation because "
+    "ApplyTypeAnnotationsVisitor.leave_ClassDef copies a stub class's "
+    "Generic[...] base onto a source class that has none.  Not "
     "decided: the behaviour of libcst's visitor itself (it also adds "
     "imports), user stubs that spell Any through their own aliases, nor "
-    "that the filters remove every undesirable annotation.")
+    "that the filters remove every undesirable annotation; whether "
+    "output.py puts a Generic base into node.bases that the source class "
+    "does not have.  KNOWN GAP (genuine defect on the reference tree, no "
+    "rule): libcst's leave_Module appends every stub class the source does "
+    "not define as a new class statement, and the stub pytype infers for "
+    "`P = NamedTuple('P', [('x', int)])` / collections.namedtuple(...) "
+    "contains `class P(NamedTuple)`, so merging inserts `class P(NamedTuple): "
+    "pass` into the source (tree changes beyond annotations).")
 ASSUMPTIONS = [
     "libcst's ApplyTypeAnnotationsVisitor only adds annotations (and the "
     "imports they need) to the tree given to transform_module and never "
@@ -77,6 +100,13 @@ ASSUMPTIONS = [
     "expression (R20.3 types its argument, R20.8 its name set); libcst calls "
     "leave_X with the node's children already visited and uses the returned "
     "node in place of the original",
+    "libcst calls visit_X before the children of an X and skips them when "
+    "it returns False (None counts as True); leave_X still runs for the "
+    "node itself; on_visit is the only other hook that can prune",
+    "libcst copies from a stub class only a base matching "
+    "Subscript(value=Name('Generic')) (read from "
+    "codemod/visitors/_apply_type_annotations.py: _find_generic_base) and "
+    "whole classes absent from the source",
     "stubs given to merge-pyi are the ones pytype's printer produces "
     "(PrintVisitor); _Imports.get_alias returns the alias of a from-import, "
     "i.e. a bare identifier",
@@ -356,16 +386,48 @@ def _context_tests(mod, fn, node):
   return tests + _and_context(mod, node, st)
 
 
+_CST_BASES = ("CSTTransformer", "CSTVisitor", "ContextAwareTransformer")
+
+
+def _local_mro(mod, cname):
+  """`cname` followed by its base classes defined in the same module
+  (depth-first, left to right, as far as single inheritance goes: a diamond
+  among module-local transformer classes is outside the model)."""
+  out, todo = [], [cname]
+  while todo:
+    n = todo.pop(0)
+    if n in out or n not in mod.classes:
+      continue
+    out.append(n)
+    local = [dotted(b) for b in mod.classes[n].bases if dotted(b) in mod.classes]
+    if len(local) > 1:
+      raise AnalysisError(f"{n}: several module-local base classes: MRO not modelled")
+    todo.extend(local)
+  return out
+
+
 def _transformer_classes(ctx, mod):
+  """Classes of the module that are libcst transformers/visitors, directly or
+  through base classes defined in the module."""
   out = {}
   for name, c in mod.classes.items():
-    bases = [dotted(b) or "" for b in c.bases]
-    if any(b.split(".")[-1] in ("CSTTransformer", "CSTVisitor",
-                                "ContextAwareTransformer") for b in bases):
-      out[name] = c
+    for k in _local_mro(mod, name):
+      bases = [dotted(b) or "" for b in mod.classes[k].bases]
+      if any(b.split(".")[-1] in _CST_BASES for b in bases):
+        out[name] = c
+        break
   for need in REQUIRED_FILTERS:
     if need not in out:
       raise AnalysisError(f"anchor class {need} (a CSTTransformer) not found in {MP}")
+  return out
+
+
+def _methods(mod, cname):
+  """name -> def for the methods of `cname`, inherited ones (from base classes
+  defined in the module) included; the most derived definition wins."""
+  out = {}
+  for k in reversed(_local_mro(mod, cname)):
+    out.update(mod.methods(k))
   return out
 
 
@@ -698,7 +760,7 @@ def r20_3(ctx):
   mod, model = m.mod, _cst(ctx)
   n = 0
   for cname, cdef in sorted(m.classes.items()):
-    methods = mod.methods(cname)
+    methods = _methods(mod, cname)
     # call sites of helper predicates: self.<pred>(..) inside callbacks
     for mname, fn in sorted(methods.items()):
       env = _method_env(model, mod, fn)
@@ -781,7 +843,9 @@ def r20_4(ctx):
     other_refs = [n for n in ast.walk(mod.tree) if isinstance(n, ast.Name)
                   and n.id == cname and isinstance(n.ctx, ast.Load)
                   and not (isinstance(mod.parent.get(n), ast.Call)
-                           and mod.parent[n].func is n)]
+                           and mod.parent[n].func is n)
+                  and not (isinstance(mod.parent.get(n), ast.ClassDef)
+                           and n in mod.parent[n].bases)]
     if other_refs:
       raise AnalysisError(
           f"{cname} is referenced without being called (line "
@@ -934,7 +998,7 @@ def r20_6(ctx):
   mod, model = m.mod, _cst(ctx)
   n = 0
   for cname in sorted(m.classes):
-    for mname, fn in sorted(mod.methods(cname).items()):
+    for mname, fn in sorted(_methods(mod, cname).items()):
       env = _method_env(model, mod, fn)
       if env is None:
         continue
@@ -1045,7 +1109,7 @@ def r20_7(ctx):
   """Where the Any/Never predicate holds, the returned node has no annotation."""
   m = _model(ctx)
   mod, model = m.mod, _cst(ctx)
-  methods = mod.methods(_ANY_FILTER)
+  methods = _methods(mod, _ANY_FILTER)
   for X, annfield in sorted(_ANNOTATED_FIELD.items()):
     ft = model.field_type(X, annfield)
     if ft is None or "Annotation" not in ft:
@@ -1206,7 +1270,7 @@ def _recognised_spellings(ctx):
   {'bare': names | None, 'qualified': names | None}."""
   m = _model(ctx)
   mod, model = m.mod, _cst(ctx)
-  methods = mod.methods(_ANY_FILTER)
+  methods = _methods(mod, _ANY_FILTER)
   preds = set()
   for name, fn in methods.items():
     if _method_env(model, mod, fn) is None:
